@@ -5,6 +5,17 @@ ROOT = os.path.dirname(os.path.dirname(os.path.abspath(__file__)))
 ids = [json.loads(l)["id"] for l in open(os.path.join(ROOT, "properties.jsonl"))]
 
 CLAIMED = {
+ "C11": dict(
+   text="Lean 4 theorems over Model/OAuth1Sig.lean (escape, normalize_parameters with merge sort, construct_base_string, normalize_base_string_uri, "
+        "signing key, HMAC signature): base_string_injective (base string determines upper-cased method, normalised URI, normalised parameters), "
+        "normalized_determines_multiset, escape_injective, secret_change_changes_key, hmac_tamper_reduces_to_collision / tampered_request_is_collision "
+        "(acceptance of a changed request = explicit MAC collision, for any MAC), base_string_eq_rfc_partial under two decidable guards and two proved "
+        "negation witnesses (known findings). Correspondence: the real client signs, the real server parses/verifies; base string, HMAC-SHA1 (native Lean SHA-1) "
+        "and PLAINTEXT key compared with the model; base string compared with an independent RFC 5849 implementation; every single-field mutation must be rejected.",
+   note="Trusted: Lean kernel; RSA-SHA1 is a primitive (not modelled; for RSA the verification key is mutated instead of the unused shared secrets, RFC 5849 §3.4.3); "
+        "header render/parse is exercised end to end, not modelled; urlparse components come from CPython. Two known findings (realm, double unescape) are listed in known_findings.json.",
+   technique="Lean 4 proof (injectivity + reduction to MAC collision) + differential correspondence + independent RFC 5849 reference",
+   design="§4 C11"),
  "C10": dict(
    text="Lean 4 theorems served_iff (full iff, every header string / token table / type list / requirement list), error_kind_mapping and "
         "rejected_token_never_current over Model/Resource.lean, which mirrors ResourceProtector.validate_request, split(None,1), type lookup, "
